@@ -254,5 +254,19 @@ var replayers = map[string]Harness{}
 // Register adds a harness for a property.
 func Register(prop string, h Harness) { registry[prop] = h }
 
+// Extras: parts of a check that live in another harness package (registered in that package's
+// init, run by the check's own entry point through RunExtras).
+var extras = map[string][]Harness{}
+
+func RegisterExtra(prop string, h Harness) { extras[prop] = append(extras[prop], h) }
+func RunExtras(prop string, c *Ctx) {
+	for _, h := range extras[prop] {
+		if c.HasViolation() || c.Expired() {
+			return
+		}
+		h(c)
+	}
+}
+
 // Lookup finds it.
 func Lookup(prop string) Harness { return registry[prop] }
